@@ -2478,9 +2478,9 @@ def run(chk, cases=None):
         "logical table (log space: the float64 value of e as an exact rational).  All of Direct (func, cv, both, cv IS func), "
         "ImportanceSampling, Enumerate, StraightThrough, Relax (func on b, control variate on z), Reparameterization (func on z) and "
         "Metropolis-Hastings (now also is_log=True, for views and for ordinary tables), linear and log space.  Metropolis-Hastings: "
-        "the handed initial_sample must be left as it was.  Not included because the unchanged library cannot be robust to them or "
-        "fails: callbacks that modify their ARGUMENT in place (every estimator reads the sample again after func(b): outside the "
-        "notion of 'the function f'); funcs that reuse / recycle the tensor they returned with >= 2 kept Metropolis-Hastings states "
+        "the handed initial_sample must be left as it was.  Not included: callbacks that modify their ARGUMENT in place (outside the "
+        "notion of 'the function f'; Direct reads the sample again for cv(b) and log_prob(b), Metropolis-Hastings keeps it as the "
+        "chain state); funcs that reuse / recycle the tensor they returned with >= 2 kept Metropolis-Hastings states "
         "(reported, corpus/C19/imh_func_reuses_output.json.pending; the one-kept-state signature is in the stream)",
     ]
     cases = cases if cases is not None else gen_cases(chk)
